@@ -5,7 +5,7 @@ import os
 import re
 
 from core import RuleOut
-from hirlib import callee, ctor_variant, peel, peel_refs, strip_generics, walk
+from hirlib import callee, ctor_variant, peel, peel_refs, place_path, strip_generics, walk
 
 TK = "crate::tokenizer::TokenKind"
 PARSER = "crate::parser::Parser::"
@@ -596,9 +596,13 @@ def rule_parens(crate):
         from errd import parent_map
 
         pm = parent_map(pfn["body"])
+        self_ids = {p["id"] for p in pfn["params"] if p.get("k") == "Binding"}
         for pmatch in walk(pfn["body"]):
             if pmatch.get("k") != "Match" or str(pmatch.get("src")) != "Normal":
                 continue
+            sp = place_path(peel_refs(pmatch["scrut"]))
+            if not (sp and sp[0] in self_ids and not sp[2]):
+                continue  # a match on an operand (peek at a child's kind), not the printer's dispatch on `self`
             for a in pmatch["arms"]:
                 vs = pat_variants(a["pat"], TYPED_E)
                 if not vs or not (vs & bare_variants):
